@@ -29,6 +29,8 @@ func TestChild(t *testing.T) {
 		RunRigW7(t, plan)
 	case "P":
 		RunRigP(t, plan)
+	case "S":
+		RunRigS(t, plan)
 	case "ST":
 		RunRigST(t, plan)
 	default:
